@@ -40,6 +40,7 @@ type Obl struct {
 	// DropQuantified renders the query without quantified hypotheses
 	// (used only to search for candidate counterexamples that are then replayed).
 	DropQuantified bool
+	TimeoutS       int // per-obligation solver timeout override (0 = default)
 }
 
 type namedTerm struct {
